@@ -83,3 +83,15 @@ Theorem C06_key_matcher_total : forall width names key,
   (length names <= width)%nat -> bm_match width names key <> MStuck.
 Proof. intros width names key H. apply bm_never_stuck. exact H. Qed.
 Print Assumptions C06_key_matcher_total.
+
+(* ---- the number recogniser of the source, as translated on every run: it returns ---- *)
+From GJ Require Import Base.ScanProg Gen.ScanProgs Model.Compact Proofs.ScanProgP.
+(* for EVERY byte string neither an index out of range (Stuck) nor a loop that makes no progress (OutOfFuel),
+   in both copies of the function *)
+Theorem C06_number_recogniser_returns : forall s,
+  (exists b, run_scanner enc_validNumber_prog s = Returned b) /\ (exists b, run_scanner dec_validNumber_prog s = Returned b).
+Proof.
+  intro s. assert (E1 : enc_validNumber_prog = vn_prog) by reflexivity. assert (E2 : dec_validNumber_prog = vn_prog) by reflexivity.
+  rewrite E1, E2, vn_prog_is_valid_number. split; eexists; reflexivity.
+Qed.
+Print Assumptions C06_number_recogniser_returns.
